@@ -4,7 +4,8 @@
 From Coq Require Import List NArith Bool Arith Sorted.
 From Coq Require Import Strings.Byte.
 Require Import BS.Bytes BS.Common BS.Api BS.Layout BS.Format BS.FormatFacts BS.Spec BS.SpecStep.
-Require Import BS.FS BS.FSFacts BS.Meta BS.MetaFacts BS.Header BS.Reader BS.ReaderFacts BS.Index BS.Data BS.DataFacts BS.Seek BS.Series BS.SeriesFacts.
+Require Import BS.FS BS.FSFacts BS.Meta BS.MetaFacts BS.Header BS.Reader BS.ReaderFacts BS.Index BS.Data BS.DataFacts BS.Seek BS.Series BS.SeriesFacts BS.Sections BS.ExtractFacts BS.HeaderFacts BS.OpenFacts BS.TornFacts BS.TornGenFacts BS.ConformFacts BS.MetaGenFacts.
+Require BSgen.MetaLayout.
 Import ListNotations.
 
 Theorem C07_forward_codec : forall (p:nat) (l:list line), wf_series p l -> decode p (encode p l) = Some l.
@@ -22,4 +23,53 @@ Print Assumptions C07_read_layouts.
 (* Tie 1: the constants regenerated from the source equal the documented ones *)
 Theorem C07_constants : BSgen.Consts.max_small_ts = MAXD /\ BSgen.Consts.preamble0 = xff /\ BSgen.Consts.preamble1 = xff.
 Proof. split; [|split]; reflexivity. Qed.
-(* partial: header parse/print round trip and the backward direction through open are not proved yet. *)
+
+(* Tie 1 for the layouts themselves: gen/MetaLayout.v is TRANSLATED on every run from the text of meta::write / meta::read in
+   /repo/src (tools/translate_meta.py). What the source writes for a timestamp is the documented section; what it reads back
+   from lines of the right size is the documented timestamp; its OutOfLines exits report 0, 1, .. consumed continuation lines
+   (the carry the chunked reader and the index scan rely on); each arm reports K lines. These are re-checked against the
+   current source on every run: an edited byte index, slice bound or count breaks them. *)
+Theorem C07_source_write_layouts : forall p t, BSgen.MetaLayout.gen_write p (le_enc 8 t) = enc_section p t.
+Proof. exact source_write_is_documented. Qed.
+Print Assumptions C07_source_write_layouts.
+Theorem C07_source_read_layouts : forall p a b got,
+  length a = p + 2 -> length b = p + 2 -> Forall (fun s => length s = p + 2) got -> length got = Meta.ncont p ->
+  le_dec (BSgen.MetaLayout.gen_read_bytes p a b got) = Layout.read_ts p a b got.
+Proof. exact source_read_is_documented. Qed.
+Print Assumptions C07_source_read_layouts.
+Theorem C07_source_consumed_lines : forall p, BSgen.MetaLayout.gen_consumed p = seq 0 (Meta.ncont p).
+Proof. exact gen_consumed_is_model. Qed.
+Print Assumptions C07_source_consumed_lines.
+Theorem C07_source_lines_per_section : forall p, BSgen.MetaLayout.gen_write_lines p = Layout.K p.
+Proof. exact gen_write_lines_is_K. Qed.
+Print Assumptions C07_source_lines_per_section.
+
+(* (I refines F) the header: check_and_split on the preamble text the library writes (regenerated from the source) returns the
+   stored payload size and exactly the stored user header, for every payload size and every user header *)
+Theorem C07_header_roundtrip : forall (p:N) (uhdr:list byte) popt, (p < 2^64)%N -> (popt = None \/ popt = Some p) ->
+  check_and_split (params_to_text BSgen.Consts.version p ++ uhdr) popt = Ok (p, uhdr).
+Proof. exact header_roundtrip. Qed.
+Print Assumptions C07_header_roundtrip.
+
+(* (I refines F) THE BACKWARD DIRECTION for reference-encoded files: a data file laid out as documented - outer header, the
+   preamble text, any user header, then the reference encoding (Layer F) of ANY well-formed list of lines - with no index file
+   at all (an independent writer knows nothing of the sidecar) or any prefix of the right one, is opened by the library and
+   read back with exactly that content, and the data file is not touched. Every payload size (0..3 under the marker-word
+   condition nm_sec of C04 = known finding D6), every length, every header. *)
+Theorem C07_reference_file_read_back : forall p fs name uhdr popt hdropt cb l,
+  let header := params_to_text BSgen.Consts.version (N.of_nat p) ++ uhdr in
+  wf_series p l -> Forall (nm_sec p) (secs_of l) ->
+  (len header <= 65535)%N -> (len (encode p l) < 2^64)%N -> (N.of_nat p < 2^64)%N ->
+  fs_get fs (name ++ ext_data) = Some (outer header ++ encode p l) ->
+  index_state fs name (sections p (encode p l)) ->
+  (popt = None \/ popt = Some (N.of_nat p)) ->
+  match hdropt with HdrIs e => e = uhdr | HdrAny => True end ->
+  exists fs' s, builder_open name popt hdropt [] cb fs = (fs', Ok (s, uhdr))
+    /\ RepH fs' s p (outer header) (outer []) l
+    /\ fs_get fs' (name ++ ext_data) = fs_get fs (name ++ ext_data)
+    /\ (read_all s Unb Unb fs' = (fs', Ok l) \/ (l = [] /\ read_all s Unb Unb fs' = (fs', Err ERange))).
+Proof. exact reference_file_read_back. Qed.
+Print Assumptions C07_reference_file_read_back.
+(* partial: files that follow the documented layout but are NOT the reference encoding (a full timestamp where a delta would
+   have fitted, index files of earlier releases that carry a copy of the header) are judged on generated variants and on the two
+   release-written files under assets/, not proved. *)
